@@ -84,8 +84,15 @@ func (o *operations) Done() {
 	enqueued := o.tryEnqueue(func() {
 		wg.Done()
 	})
+	busyCh := o.busyCh
 	o.mu.Unlock()
 	if !enqueued {
+		// the queue is closed, nothing can be added anymore:
+		// wait for the operations that are still in flight.
+		if busyCh != nil {
+			<-busyCh
+		}
+
 		return
 	}
 	wg.Wait()
